@@ -65,6 +65,30 @@ fn files(tier: Tier) -> Vec<(String, Vec<u8>)> {
             }
         }
     }
+    // structural sequences: every word over the 21-class alphabet up to length L (any order)
+    {
+        use crate::checks::c05::{rep_inst, SYMBOLS};
+        let l = tier.pick(3, 4);
+        let mut layer: Vec<Vec<u8>> = vec![vec![]];
+        for _ in 0..l {
+            let mut next = vec![];
+            for s in &layer {
+                for k in 0..SYMBOLS.len() as u8 {
+                    let mut t = s.clone();
+                    t.push(k);
+                    next.push(t);
+                }
+            }
+            for s in &next {
+                let mut w = model::header(0x0001_0000, 0, 1000);
+                for (i, &k) in s.iter().enumerate() {
+                    w.extend(enc(&rep_inst(SYMBOLS[k as usize], i)));
+                }
+                out.push((format!("seq{:?}", s.iter().map(|&k| SYMBOLS[k as usize]).collect::<Vec<_>>()), model::words_to_bytes(&w)));
+            }
+            layer = next;
+        }
+    }
     let halpha = mutate::hostile_alphabet();
     for &a in &halpha {
         mutate::hostile_each(&[a], 2, true, &mut |m| out.push((m.what.clone(), m.bytes.clone())));
@@ -140,7 +164,7 @@ pub fn run(tier: Tier) -> Run {
     let distinct: std::collections::HashSet<&Vec<u8>> = fs.iter().map(|f| &f.1).collect();
     run.set("evaluations", json!(n));
     run.set("distinct_nontrivial", json!(distinct.len()));
-    run.set("rule", json!("files = the empty file, every prefix of a valid multi-section module, a strided selection of the C03 universe (every corruption kind of every seed is represented) and every hostile word string of length <= 2 (+1-3 trailing bytes); each file is written to disk and the real rspirv-dis binary built from /repo is run on it: exit status 0, stdout equal to the library's disassembly + newline or the Display of the loading error + newline (computed in-process), single-line error, no panic text on stderr. distinct_nontrivial = distinct file contents"));
+    run.set("rule", json!("files = the empty file, every prefix of a valid multi-section module, a strided selection of the C03 universe (every corruption kind of every seed is represented), every word over the 21 instruction classes up to length L in any order, and every hostile word string of length <= 2 (+1-3 trailing bytes); each file is written to disk and the real rspirv-dis binary built from /repo is run on it: exit status 0, stdout equal to the library's disassembly + newline or the Display of the loading error + newline (computed in-process), single-line error, no panic text on stderr. distinct_nontrivial = distinct file contents"));
     run.set("exhaustive", json!(false));
     run.set("bounds", json!({"files": fs.len(), "selection": "strided (not the whole C03 universe: one process per file)"}));
     run.set("samples", json!(fs.iter().step_by(fs.len() / 5 + 1).map(|f| json!({"file": f.0, "bytes": hex(&f.1[..f.1.len().min(64)])})).collect::<Vec<_>>()));
